@@ -88,12 +88,12 @@ package zh
 //@ func parseComment
 //@   requires lexerWF(l) && lastLineOK(l) && (charAt(l, l.cursor) == CharZHU || charAt(l, l.cursor) == SlashOp)
 //@   modifies l.cursor, l.Lines, mem(l.Lines)
-//@   ensures lexerWF(l) && r2 == nil && l.cursor >= old(l.cursor) && (l.Lines.base == old(l.Lines.base) || fresh(l.Lines))
+//@   ensures lexerWF(l) && r2 == nil && l.cursor >= old(l.cursor) && (l.Lines.base == old(l.Lines.base) || fresh(l.Lines)) && len(l.Lines) >= old(len(l.Lines))
 //@   ensures r0 ==> tokenSpan(r1, l, old(l.cursor)) && r1.Type == TypeComment && lastLineOK(l)
 //@   ensures !r0 ==> len(l.Lines) == old(len(l.Lines)) && l.Lines == old(l.Lines) && sameMem(l.Lines)
 //@   loop 1 invariant lexerWF(l) && l.cursor < len(l.Source) && l.cursor >= old(l.cursor) && l.Lines == old(l.Lines) && sameMem(l.Lines)
 //@   loop 1 decreases len(l.Source) - l.cursor
-//@   loop 2 invariant lexerWF(l) && l.cursor > old(l.cursor) && lastLineLoose(l) && (l.Lines.base == old(l.Lines.base) || fresh(l.Lines)) && startIdx == old(l.cursor)
+//@   loop 2 invariant lexerWF(l) && l.cursor > old(l.cursor) && lastLineLoose(l) && (l.Lines.base == old(l.Lines.base) || fresh(l.Lines)) && startIdx == old(l.cursor) && len(l.Lines) >= old(len(l.Lines))
 //@   loop 2 decreases len(l.Source) - l.cursor
 
 // ---- string literals (C13) ----
@@ -130,12 +130,12 @@ package zh
 //@ func parseString
 //@   requires lexerWF(l) && lastLineOK(l) && closingQuote(charAt(l, l.cursor)) != 0
 //@   modifies l.cursor, l.Lines, mem(l.Lines)
-//@   ensures lexerWF(l) && (l.Lines.base == old(l.Lines.base) || fresh(l.Lines)) && l.cursor >= old(l.cursor)
+//@   ensures lexerWF(l) && (l.Lines.base == old(l.Lines.base) || fresh(l.Lines)) && l.cursor >= old(l.cursor) && len(l.Lines) >= old(len(l.Lines))
 //@   ensures r1 == nil ==> tokenSpan(r0, l, old(l.cursor)) && lastLineOK(l) && r0.Type != TypeEOF
 //@   ensures [closes-at-own-quote] r1 == nil ==> charAt(l, r0.EndIdx - 1) == closingQuote(old(charAt(l, l.cursor)))
 //@   ensures [type-by-family] r1 == nil ==> r0.Type == (old(charAt(l, l.cursor)) == LeftSingleQuoteI || old(charAt(l, l.cursor)) == LeftSingleQuoteII ? TypeEnumString : (old(charAt(l, l.cursor)) == LeftLibQuoteI ? TypeLibString : TypeString))
 //@   ensures [unterminated-is-error] r1 != nil ==> isSyntaxErrorAt(r1, l) && as(r1, *zerr.SyntaxError).Code == zerr.ErrIncomleteString
-//@   loop 1 invariant lexerWF(l) && l.cursor >= old(l.cursor) && quoteNum >= 1 && quoteNum <= l.cursor - startIdx + 1 && fresh(literal) && lastLineLoose(l) && (l.Lines.base == old(l.Lines.base) || fresh(l.Lines)) && sch == old(charAt(l, l.cursor)) && startIdx == old(l.cursor)
+//@   loop 1 invariant lexerWF(l) && l.cursor >= old(l.cursor) && quoteNum >= 1 && quoteNum <= l.cursor - startIdx + 1 && fresh(literal) && lastLineLoose(l) && (l.Lines.base == old(l.Lines.base) || fresh(l.Lines)) && sch == old(charAt(l, l.cursor)) && startIdx == old(l.cursor) && len(l.Lines) >= old(len(l.Lines))
 //@   loop 1 decreases len(l.Source) - l.cursor
 //@   loop 1 step [keeps-literal] len(literal) >= prev(len(literal)) && (forall i int :: 0 <= i && i < prev(len(literal)) ==> literal[i] == prev(literal[i]))
 //@   loop 1 step [verbatim] ch != BackTick && ch != syntax.RuneCR && ch != syntax.RuneLF ==> len(literal) == prev(len(literal)) + 1 && literal[prev(len(literal))] == ch && ch == charAt(l, l.cursor) && l.cursor == prev(l.cursor) + 1
@@ -146,10 +146,577 @@ package zh
 
 // ---- NextToken (C04 dispatch, C05 progress and error positions) ----
 //@ func NextToken
-//@   requires lexerWF(l) && (l.beginLex ? l.cursor == 0 && len(l.Lines) == 0 : lastLineOK(l))
+//@   requires lexerWF(l) && (l.beginLex ? l.cursor == 0 && len(l.Lines) == 0 : lastLineOK(l) && linesStarted(l))
 //@   modifies l.cursor, l.IndentType, l.Lines, mem(l.Lines), l.beginLex
 //@   ensures lexerWF(l) && !l.beginLex && l.cursor >= old(l.cursor)
+//@   ensures [line-table-only-grows] len(l.Lines) >= old(len(l.Lines)) && (l.Lines.base == old(l.Lines.base) || fresh(l.Lines))
+//@   ensures [lines-exist-once-a-token-was-read] r1 == nil ==> linesStarted(l) && (r0.Type != TypeEOF ==> len(l.Lines) >= 1)
 //@   ensures r1 == nil ==> lastLineOK(l) && r0.EndIdx == l.cursor && r0.StartIdx >= old(l.cursor) && r0.StartIdx <= r0.EndIdx
 //@   ensures [progress] r1 == nil && r0.Type != TypeEOF ==> l.cursor > old(l.cursor) && r0.EndIdx > r0.StartIdx
 //@   ensures [eof-means-end-of-text] r1 == nil && r0.Type == TypeEOF ==> l.cursor == len(l.Source)
 //@   ensures [error-has-position] r1 != nil ==> isSyntaxErrorAt(r1, l)
+
+// ================= the parser (C03 completeness, C05 no runtime panic) =================
+// parser state after the first token has been read: a lexer that has started, a look-ahead token, line indexes inside
+// the line table. The current token (TokenP1) is nil until the first token has been consumed.
+//@ pred pWF(p *ParserZH) = p != nil && p.Lexer != nil && lexerWF(p.Lexer) && !p.Lexer.beginLex && lastLineOK(p.Lexer) && linesStarted(p.Lexer) &&
+//@   (p.TokenP1 != nil && p.TokenP1.Type != TypeEOF ==> len(p.Lexer.Lines) >= 1) &&
+//@   (len(p.Lexer.Lines) == 0 ==> p.TokenP2.Type == TypeEOF && p.StartLineIdxP1 == 0 && p.EndLineIdxP1 == 0 && p.StartLineIdxP2 == 0 && p.EndLineIdxP2 == 0) &&
+//@   p.TokenP2 != nil && 0 <= p.TokenP2.StartIdx && p.TokenP2.StartIdx <= p.TokenP2.EndIdx && p.TokenP2.EndIdx <= p.Lexer.cursor &&
+//@   (p.TokenP1 != nil ==> 0 <= p.TokenP1.StartIdx && p.TokenP1.StartIdx <= len(p.Lexer.Source)) &&
+//@   0 <= p.StartLineIdxP1 && 0 <= p.EndLineIdxP1 && 0 <= p.StartLineIdxP2 && 0 <= p.EndLineIdxP2 &&
+//@   (len(p.Lexer.Lines) > 0 ==> p.StartLineIdxP1 < len(p.Lexer.Lines) && p.EndLineIdxP1 < len(p.Lexer.Lines) && p.StartLineIdxP2 < len(p.Lexer.Lines) && p.EndLineIdxP2 < len(p.Lexer.Lines))
+
+// what a production may panic with: a syntax error whose cursor lies inside the source (the error channel of the parser)
+//@ pred syntaxPanic(v any, p *ParserZH) = is(v, *zerr.SyntaxError) && as(v, *zerr.SyntaxError) != nil &&
+//@   0 <= as(v, *zerr.SyntaxError).Cursor && as(v, *zerr.SyntaxError).Cursor <= len(p.Lexer.Source)
+
+//@ func NewParserZH
+//@   modifies nothing
+//@   ensures result != nil && fresh(result) && result.TokenP1 == nil && result.TokenP2 == nil && result.StartLineIdxP2 == 0 && result.EndLineIdxP2 == 0
+
+//@ method (*ParserZH).current
+//@   pure
+//@   ensures result == p.TokenP1
+//@ method (*ParserZH).peek
+//@   pure
+//@   ensures result == p.TokenP2
+//@ method (*ParserZH).unsetStmtCompleteFlag
+//@   requires p != nil
+//@   modifies p.stmtCompleteFlag
+//@   ensures !p.stmtCompleteFlag
+//@ method (*ParserZH).setStmtCompleteFlag
+//@   requires p != nil
+//@   modifies p.stmtCompleteFlag
+//@   ensures p.stmtCompleteFlag
+
+//@ method (*ParserZH).meetStmtLineBreak
+//@   requires p != nil
+//@   modifies nothing
+//@ method (*ParserZH).meetStmtBreak
+//@   requires p != nil && p.TokenP2 != nil
+//@   modifies nothing
+//@   ensures result == (p.TokenP2.Type == TypeStmtSep || p.TokenP2.Type == TypeEOF)
+
+// next: reads one more token (skipping comments); the old look-ahead becomes the current token
+//@ method (*ParserZH).next
+//@   requires p != nil && p.Lexer != nil && lexerWF(p.Lexer) && (p.Lexer.beginLex ? p.Lexer.cursor == 0 && len(p.Lexer.Lines) == 0 && p.StartLineIdxP2 == 0 && p.EndLineIdxP2 == 0 && p.TokenP2 == nil : pWF(p))
+//@   modifies p.TokenP1, p.TokenP2, p.StartLineIdxP1, p.EndLineIdxP1, p.StartLineIdxP2, p.EndLineIdxP2, p.stmtCompleteFlag, p.Lexer.cursor, p.Lexer.IndentType, p.Lexer.Lines, mem(p.Lexer.Lines), p.Lexer.beginLex
+//@   panics syntaxPanic(v, p)
+//@   ensures pWF(p) && result == old(p.TokenP2) && p.TokenP1 == old(p.TokenP2) && fresh(p.TokenP2) && p.Lexer == old(p.Lexer)
+//@   ensures [line-table-only-grows] len(p.Lexer.Lines) >= old(len(p.Lexer.Lines)) && (p.Lexer.Lines.base == old(p.Lexer.Lines.base) || fresh(p.Lexer.Lines))
+//@   ensures [progress] p.Lexer.cursor >= old(p.Lexer.cursor) && (p.TokenP2.Type != TypeEOF ==> p.Lexer.cursor > old(p.Lexer.cursor))
+//@   ensures [eof-stays] p.TokenP2.Type == TypeEOF ==> p.Lexer.cursor == len(p.Lexer.Source)
+//@   loop 1 invariant p.TokenP2 == old(p.TokenP2) && (p.TokenP2 != nil ==> p.TokenP2.Type == old(p.TokenP2.Type) && p.TokenP2.StartIdx == old(p.TokenP2.StartIdx) && p.TokenP2.EndIdx == old(p.TokenP2.EndIdx))
+//@   loop 1 invariant p.Lexer == old(p.Lexer) && lexerWF(p.Lexer) && !p.Lexer.beginLex && lastLineOK(p.Lexer) && linesStarted(p.Lexer) && (tk.Type != TypeEOF ==> len(p.Lexer.Lines) >= 1) && len(p.Lexer.Lines) >= old(len(p.Lexer.Lines)) && (p.Lexer.Lines.base == old(p.Lexer.Lines.base) || fresh(p.Lexer.Lines)) && err == nil && p.Lexer.cursor >= old(p.Lexer.cursor) &&
+//@             0 <= tk.StartIdx && tk.StartIdx <= tk.EndIdx && tk.EndIdx == p.Lexer.cursor && (tk.Type != TypeEOF ==> p.Lexer.cursor > old(p.Lexer.cursor)) && (tk.Type == TypeEOF ==> p.Lexer.cursor == len(p.Lexer.Source))
+//@   loop 1 decreases len(p.Lexer.Source) - p.Lexer.cursor + (tk.Type == TypeComment ? 1 : 0)
+
+// tryConsume: skips one optional comma, then takes the look-ahead token if its type is one of validTypes
+// (and no statement break was met); a taken token becomes the current token
+//@ method (*ParserZH).tryConsume
+//@   requires pWF(p)
+//@   modifies p.TokenP1, p.TokenP2, p.StartLineIdxP1, p.EndLineIdxP1, p.StartLineIdxP2, p.EndLineIdxP2, p.stmtCompleteFlag, p.Lexer.cursor, p.Lexer.IndentType, p.Lexer.Lines, mem(p.Lexer.Lines), p.Lexer.beginLex
+//@   panics syntaxPanic(v, p)
+//@   ensures pWF(p) && p.Lexer == old(p.Lexer) && p.Lexer.cursor >= old(p.Lexer.cursor)
+//@   ensures [line-table-only-grows] len(p.Lexer.Lines) >= old(len(p.Lexer.Lines)) && (p.Lexer.Lines.base == old(p.Lexer.Lines.base) || fresh(p.Lexer.Lines))
+//@   ensures [taken-token-is-current] r0 ==> r1 != nil && r1 == p.TokenP1 && r1.Type != TypeEOF || r0 && r1 != nil && r1 == p.TokenP1
+//@   ensures [taken-type-was-asked-for] r0 ==> (exists i int :: 0 <= i && i < len(validTypes) && validTypes[i] == r1.Type)
+//@   ensures [nothing-taken] !r0 ==> r1 == nil
+//@   ensures [progress-when-taken] r0 && r1.Type != TypeEOF ==> p.Lexer.cursor > old(p.Lexer.cursor) || p.TokenP2.Type == TypeEOF
+//@   loop 1 invariant pWF(p)
+
+//@ method (*ParserZH).consume
+//@   requires pWF(p)
+//@   modifies p.TokenP1, p.TokenP2, p.StartLineIdxP1, p.EndLineIdxP1, p.StartLineIdxP2, p.EndLineIdxP2, p.stmtCompleteFlag, p.Lexer.cursor, p.Lexer.IndentType, p.Lexer.Lines, mem(p.Lexer.Lines), p.Lexer.beginLex
+//@   panics syntaxPanic(v, p)
+//@   ensures pWF(p) && p.Lexer == old(p.Lexer) && p.TokenP1 != nil && p.Lexer.cursor >= old(p.Lexer.cursor)
+//@   ensures [line-table-only-grows] len(p.Lexer.Lines) >= old(len(p.Lexer.Lines)) && (p.Lexer.Lines.base == old(p.Lexer.Lines.base) || fresh(p.Lexer.Lines))
+//@   ensures [consumed-type-was-asked-for] exists i int :: 0 <= i && i < len(validTypes) && validTypes[i] == p.TokenP1.Type
+
+//@ method (*ParserZH).expectBlockIndent
+//@   requires pWF(p) && len(p.Lexer.Lines) >= 1
+//@   modifies nothing
+//@ method (*ParserZH).getPeekIndent
+//@   requires pWF(p)
+//@   modifies nothing
+//@ method (*ParserZH).getCurrIndent
+//@   requires pWF(p)
+//@   modifies nothing
+
+//@ method (*ParserZH).getInvalidSyntaxCurr
+//@   requires pWF(p)
+//@   modifies nothing
+//@   ensures syntaxPanic(result, p) && result != nil
+//@ method (*ParserZH).getInvalidSyntaxPeek
+//@   requires pWF(p)
+//@   modifies nothing
+//@   ensures syntaxPanic(result, p) && result != nil
+//@ method (*ParserZH).getUnexpectedIndentPeek
+//@   requires pWF(p)
+//@   modifies nothing
+//@   ensures syntaxPanic(result, p) && result != nil
+//@ method (*ParserZH).getExprMustTypeIDPeek
+//@   requires pWF(p)
+//@   modifies nothing
+//@   ensures syntaxPanic(result, p) && result != nil
+
+//@ method (*ParserZH).currStartIdx
+//@   requires p != nil
+//@   pure
+//@   ensures result == (p.TokenP1 == nil ? 0 : p.TokenP1.StartIdx)
+
+// ---- productions: every production keeps the parser state well formed, reports errors only as positioned syntax
+// errors (panics caught by Parser.Parse), and returns a complete node (C03: every part the grammar requires is there).
+// theParser: the parser object of the running parse (closures passed as consumers refer to it)
+//@ ghostconst theParser *ParserZH
+//@ functype consumerFunc()
+//@   requires pWF(theParser)
+//@   modifies *
+//@   panics syntaxPanic(v, theParser)
+//@   ensures pWF(theParser) && theParser.Lexer == old(theParser.Lexer) && theParser.Lexer.cursor >= old(theParser.Lexer.cursor)
+
+//@ func ParseProgram
+//@   requires pWF(p) && p == theParser
+//@   modifies *
+//@   panics syntaxPanic(v, p)
+//@   ensures pWF(p) && p.Lexer == old(p.Lexer) && p.Lexer.cursor >= old(p.Lexer.cursor)
+//@   ensures [complete] result != nil
+
+//@ func ParseStatement
+//@   requires pWF(p) && p == theParser
+//@   modifies *
+//@   panics syntaxPanic(v, p)
+//@   ensures pWF(p) && p.Lexer == old(p.Lexer) && p.Lexer.cursor >= old(p.Lexer.cursor)
+//@   ensures [complete] result != nil && result.ptr != 0
+
+//@ func ParseExpression
+//@   requires pWF(p) && p == theParser
+//@   modifies *
+//@   panics syntaxPanic(v, p)
+//@   ensures pWF(p) && p.Lexer == old(p.Lexer) && p.Lexer.cursor >= old(p.Lexer.cursor)
+//@   ensures [complete] result != nil && result.ptr != 0
+
+//@ func ParseExpressionMAP
+//@   requires pWF(p) && p == theParser
+//@   modifies *
+//@   panics syntaxPanic(v, p)
+//@   ensures pWF(p) && p.Lexer == old(p.Lexer) && p.Lexer.cursor >= old(p.Lexer.cursor)
+//@   ensures [complete] result != nil && result.ptr != 0
+
+//@ func ParseArithExpr
+//@   requires pWF(p) && p == theParser
+//@   modifies *
+//@   panics syntaxPanic(v, p)
+//@   ensures pWF(p) && p.Lexer == old(p.Lexer) && p.Lexer.cursor >= old(p.Lexer.cursor)
+//@   ensures [complete] result != nil && result.ptr != 0
+
+//@ func parseArithMulDivExpr
+//@   requires pWF(p) && p == theParser
+//@   modifies *
+//@   panics syntaxPanic(v, p)
+//@   ensures pWF(p) && p.Lexer == old(p.Lexer) && p.Lexer.cursor >= old(p.Lexer.cursor)
+//@   ensures [complete] result != nil && result.ptr != 0
+
+//@ func ParseMemberExpr
+//@   requires pWF(p) && p == theParser
+//@   modifies *
+//@   panics syntaxPanic(v, p)
+//@   ensures pWF(p) && p.Lexer == old(p.Lexer) && p.Lexer.cursor >= old(p.Lexer.cursor)
+//@   ensures [complete] result != nil && result.ptr != 0
+
+//@ func ParseBasicExpr
+//@   requires pWF(p) && p == theParser
+//@   modifies *
+//@   panics syntaxPanic(v, p)
+//@   ensures pWF(p) && p.Lexer == old(p.Lexer) && p.Lexer.cursor >= old(p.Lexer.cursor)
+//@   ensures [complete] result != nil && result.ptr != 0
+
+//@ func ParseArrayExpr
+//@   requires pWF(p) && p == theParser
+//@   modifies *
+//@   panics syntaxPanic(v, p)
+//@   ensures pWF(p) && p.Lexer == old(p.Lexer) && p.Lexer.cursor >= old(p.Lexer.cursor)
+//@   ensures [complete] result != nil && result.ptr != 0
+
+//@   loop 1 invariant pWF(p) && p.Lexer == old(p.Lexer) && p.Lexer.cursor >= old(p.Lexer.cursor) && ar != nil && hm != nil
+//@   loop 2 invariant pWF(p) && p.Lexer == old(p.Lexer) && p.Lexer.cursor >= old(p.Lexer.cursor) && ar != nil && hm != nil
+//@ func tryParseEmptyMapList
+//@   requires pWF(p) && p == theParser
+//@   modifies *
+//@   panics syntaxPanic(v, p)
+//@   ensures pWF(p) && p.Lexer == old(p.Lexer) && p.Lexer.cursor >= old(p.Lexer.cursor)
+//@   ensures [complete] r0 ==> r1 != nil && r1.ptr != 0
+
+//@ func ParseFuncCallExpr
+//@   requires pWF(p) && p == theParser
+//@   modifies *
+//@   panics syntaxPanic(v, p)
+//@   ensures pWF(p) && p.Lexer == old(p.Lexer) && p.Lexer.cursor >= old(p.Lexer.cursor)
+//@   ensures [complete] result != nil
+
+//@ func ParseMemberFuncCallExpr
+//@   requires pWF(p) && p == theParser
+//@   modifies *
+//@   panics syntaxPanic(v, p)
+//@   ensures pWF(p) && p.Lexer == old(p.Lexer) && p.Lexer.cursor >= old(p.Lexer.cursor)
+//@   ensures [complete] result != nil
+
+//@   loop 1 invariant pWF(p) && p.Lexer == old(p.Lexer) && p.Lexer.cursor >= old(p.Lexer.cursor) && result != nil && result.Root != nil && result.Root.ptr != 0
+//@ func ParseVarDeclareStmt
+//@   requires pWF(p) && p == theParser
+//@   modifies *
+//@   panics syntaxPanic(v, p)
+//@   ensures pWF(p) && p.Lexer == old(p.Lexer) && p.Lexer.cursor >= old(p.Lexer.cursor)
+//@   ensures [complete] result != nil
+
+//@ func parseVDAssignPair
+//@   requires pWF(p) && p == theParser
+//@   modifies *
+//@   panics syntaxPanic(v, p)
+//@   ensures pWF(p) && p.Lexer == old(p.Lexer) && p.Lexer.cursor >= old(p.Lexer.cursor)
+//@   ensures [complete] result.AssignExpr != nil && result.AssignExpr.ptr != 0
+
+//@ func ParseObjNewExpr
+//@   requires pWF(p) && p == theParser
+//@   modifies *
+//@   panics syntaxPanic(v, p)
+//@   ensures pWF(p) && p.Lexer == old(p.Lexer) && p.Lexer.cursor >= old(p.Lexer.cursor)
+//@   ensures [complete] result != nil
+
+//@ func ParseWhileLoopStmt
+//@   requires pWF(p) && p == theParser
+//@   modifies *
+//@   panics syntaxPanic(v, p)
+//@   ensures pWF(p) && p.Lexer == old(p.Lexer) && p.Lexer.cursor >= old(p.Lexer.cursor)
+//@   ensures [complete] result != nil
+
+//@ func ParseBlockStmt
+//@   requires pWF(p) && p == theParser
+//@   modifies *
+//@   panics syntaxPanic(v, p)
+//@   ensures pWF(p) && p.Lexer == old(p.Lexer) && p.Lexer.cursor >= old(p.Lexer.cursor)
+//@   ensures [complete] result != nil
+
+//@ func ParseBranchStmt
+//@   requires pWF(p) && p == theParser
+//@   modifies *
+//@   panics syntaxPanic(v, p)
+//@   ensures pWF(p) && p.Lexer == old(p.Lexer) && p.Lexer.cursor >= old(p.Lexer.cursor)
+//@   ensures [complete] result != nil
+
+//@   loop 1 invariant pWF(p) && p.Lexer == old(p.Lexer) && p.Lexer.cursor >= old(p.Lexer.cursor) && stmt != nil && 0 <= hState && hState <= 3 && (hState != 0 ==> stmt.IfTrueExpr != nil && stmt.IfTrueExpr.ptr != 0 && stmt.IfTrueBlock != nil) && len(stmt.OtherExprs) == len(stmt.OtherBlocks) && !stmt.HasElse
+//@ func ParseFunctionDeclareStmt
+//@   requires pWF(p) && p == theParser
+//@   modifies *
+//@   panics syntaxPanic(v, p)
+//@   ensures pWF(p) && p.Lexer == old(p.Lexer) && p.Lexer.cursor >= old(p.Lexer.cursor)
+//@   ensures [complete] result != nil
+
+//@ func ParseConstructorDeclareStmt
+//@   requires pWF(p) && p == theParser
+//@   modifies *
+//@   panics syntaxPanic(v, p)
+//@   ensures pWF(p) && p.Lexer == old(p.Lexer) && p.Lexer.cursor >= old(p.Lexer.cursor)
+//@   ensures [complete] result != nil
+
+//@ func parseFunctionBlock
+//@   requires pWF(p) && p == theParser
+//@   modifies *
+//@   panics syntaxPanic(v, p)
+//@   ensures pWF(p) && p.Lexer == old(p.Lexer) && p.Lexer.cursor >= old(p.Lexer.cursor)
+//@   ensures [complete] r0 != nil
+//@   ensures [complete] r1 != nil
+
+//@ func ParseExecBlock
+//@   requires pWF(p) && p == theParser
+//@   modifies *
+//@   panics syntaxPanic(v, p)
+//@   ensures pWF(p) && p.Lexer == old(p.Lexer) && p.Lexer.cursor >= old(p.Lexer.cursor)
+//@   ensures [complete] result != nil
+
+//@ func ParseGetterDeclareStmt
+//@   requires pWF(p) && p == theParser
+//@   modifies *
+//@   panics syntaxPanic(v, p)
+//@   ensures pWF(p) && p.Lexer == old(p.Lexer) && p.Lexer.cursor >= old(p.Lexer.cursor)
+//@   ensures [complete] result != nil
+
+//@ func ParseVarOneLeadStmt
+//@   requires pWF(p) && p == theParser
+//@   modifies *
+//@   panics syntaxPanic(v, p)
+//@   ensures pWF(p) && p.Lexer == old(p.Lexer) && p.Lexer.cursor >= old(p.Lexer.cursor)
+//@   ensures [complete] result != nil && result.ptr != 0
+
+//@   loop 1 invariant pWF(p) && p.Lexer == old(p.Lexer) && p.Lexer.cursor >= old(p.Lexer.cursor) && result != nil && result.Root != nil && result.Root.ptr != 0
+//@ func ParseIteratorStmt
+//@   requires pWF(p) && p == theParser
+//@   modifies *
+//@   panics syntaxPanic(v, p)
+//@   ensures pWF(p) && p.Lexer == old(p.Lexer) && p.Lexer.cursor >= old(p.Lexer.cursor)
+//@   ensures [complete] result != nil
+
+//@ func parseIteratorStmtRest
+//@   requires pWF(p) && p == theParser
+//@   modifies *
+//@   panics syntaxPanic(v, p)
+//@   ensures pWF(p) && p.Lexer == old(p.Lexer) && p.Lexer.cursor >= old(p.Lexer.cursor)
+//@   ensures [complete] result != nil
+
+//@ func ParseFunctionReturnStmt
+//@   requires pWF(p) && p == theParser
+//@   modifies *
+//@   panics syntaxPanic(v, p)
+//@   ensures pWF(p) && p.Lexer == old(p.Lexer) && p.Lexer.cursor >= old(p.Lexer.cursor)
+//@   ensures [complete] result != nil
+
+//@ func ParseThrowExceptionStmt
+//@   requires pWF(p) && p == theParser
+//@   modifies *
+//@   panics syntaxPanic(v, p)
+//@   ensures pWF(p) && p.Lexer == old(p.Lexer) && p.Lexer.cursor >= old(p.Lexer.cursor)
+//@   ensures [complete] result != nil
+
+//@   loop 1 invariant pWF(p) && p.Lexer == old(p.Lexer) && p.Lexer.cursor >= old(p.Lexer.cursor) && exceptionClass != nil && (exprs.base == 0 || fresh(exprs))
+//@ func ParseCatchErrorStmt
+//@   requires pWF(p) && p == theParser
+//@   modifies *
+//@   panics syntaxPanic(v, p)
+//@   ensures pWF(p) && p.Lexer == old(p.Lexer) && p.Lexer.cursor >= old(p.Lexer.cursor)
+//@   ensures [complete] result != nil
+
+//@ func ParseImportStmt
+//@   requires pWF(p) && p == theParser
+//@   modifies *
+//@   panics syntaxPanic(v, p)
+//@   ensures pWF(p) && p.Lexer == old(p.Lexer) && p.Lexer.cursor >= old(p.Lexer.cursor)
+//@   ensures [complete] result != nil
+
+//@ func ParseClassDeclareStmt
+//@   requires pWF(p) && p == theParser
+//@   modifies *
+//@   panics syntaxPanic(v, p)
+//@   ensures pWF(p) && p.Lexer == old(p.Lexer) && p.Lexer.cursor >= old(p.Lexer.cursor)
+//@   ensures [complete] result != nil
+
+//@ func parsePropertyDeclareStmt
+//@   requires pWF(p) && p == theParser
+//@   modifies *
+//@   panics syntaxPanic(v, p)
+//@   ensures pWF(p) && p.Lexer == old(p.Lexer) && p.Lexer.cursor >= old(p.Lexer.cursor)
+//@   ensures [complete] result != nil
+
+//@ func ParseBreakStmt
+//@   requires pWF(p) && p == theParser
+//@   modifies *
+//@   panics syntaxPanic(v, p)
+//@   ensures pWF(p) && p.Lexer == old(p.Lexer) && p.Lexer.cursor >= old(p.Lexer.cursor)
+//@   ensures [complete] result != nil
+
+//@ func ParseContinueStmt
+//@   requires pWF(p) && p == theParser
+//@   modifies *
+//@   panics syntaxPanic(v, p)
+//@   ensures pWF(p) && p.Lexer == old(p.Lexer) && p.Lexer.cursor >= old(p.Lexer.cursor)
+//@   ensures [complete] result != nil
+
+//@ func parseID
+//@   requires pWF(p) && p == theParser
+//@   modifies *
+//@   panics syntaxPanic(v, p)
+//@   ensures pWF(p) && p.Lexer == old(p.Lexer) && p.Lexer.cursor >= old(p.Lexer.cursor)
+//@   ensures [complete] result != nil
+
+//@ func parseFuncID
+//@   requires pWF(p) && p == theParser
+//@   modifies *
+//@   panics syntaxPanic(v, p)
+//@   ensures pWF(p) && p.Lexer == old(p.Lexer) && p.Lexer.cursor >= old(p.Lexer.cursor)
+//@   ensures [complete] result != nil
+
+//@ func parsePauseCommaList
+//@   requires pWF(p) && p == theParser && consumer != nil
+//@   loop 1 invariant pWF(p) && p.Lexer == old(p.Lexer) && p.Lexer.cursor >= old(p.Lexer.cursor)
+//@   modifies *
+//@   panics syntaxPanic(v, p)
+//@   ensures pWF(p) && p.Lexer == old(p.Lexer) && p.Lexer.cursor >= old(p.Lexer.cursor)
+
+//@ func parseItemListBlock
+//@   requires pWF(p) && p == theParser && consumer != nil
+//@   loop 1 invariant pWF(p) && p.Lexer == old(p.Lexer) && p.Lexer.cursor >= old(p.Lexer.cursor)
+//@   modifies *
+//@   panics syntaxPanic(v, p)
+//@   ensures pWF(p) && p.Lexer == old(p.Lexer) && p.Lexer.cursor >= old(p.Lexer.cursor)
+
+//@ func newID
+//@   requires pWF(p) && p == theParser && tk != nil
+//@   modifies key:F$syntax.StmtBase$currentLine, key:F$syntax.ExprBase$currentLine
+//@   panics syntaxPanic(v, p)
+//@   ensures pWF(p) && p.Lexer == old(p.Lexer) && p.Lexer.cursor >= old(p.Lexer.cursor)
+//@   ensures [complete] result != nil
+
+//@ func newString
+//@   requires pWF(p) && p == theParser && tk != nil
+//@   modifies key:F$syntax.StmtBase$currentLine, key:F$syntax.ExprBase$currentLine
+//@   panics syntaxPanic(v, p)
+//@   ensures pWF(p) && p.Lexer == old(p.Lexer) && p.Lexer.cursor >= old(p.Lexer.cursor)
+//@   ensures [complete] result != nil
+
+//@ closure ParseArithExpr$1
+//@   assumes p == theParser
+//@   requires pWF(p) && el != nil && el.ptr != 0
+//@   modifies *
+//@   panics syntaxPanic(v, p)
+//@   ensures pWF(p) && p.Lexer == old(p.Lexer) && p.Lexer.cursor >= old(p.Lexer.cursor)
+//@   ensures [complete] result != nil && result.ptr != 0
+
+//@ closure ParseBlockStmt$1
+//@   assumes p == theParser
+//@   requires pWF(p)
+//@   modifies *
+//@   panics syntaxPanic(v, p)
+//@   ensures pWF(p) && p.Lexer == old(p.Lexer) && p.Lexer.cursor >= old(p.Lexer.cursor)
+
+//@ closure ParseClassDeclareStmt$1
+//@   assumes p == theParser
+//@   requires pWF(p)
+//@   modifies *
+//@   panics syntaxPanic(v, p)
+//@   ensures pWF(p) && p.Lexer == old(p.Lexer) && p.Lexer.cursor >= old(p.Lexer.cursor)
+
+//@ closure ParseExecBlock$1
+//@   assumes p == theParser
+//@   requires pWF(p)
+//@   modifies *
+//@   panics syntaxPanic(v, p)
+//@   ensures pWF(p) && p.Lexer == old(p.Lexer) && p.Lexer.cursor >= old(p.Lexer.cursor)
+
+//@ closure ParseExecBlock$1$1
+//@   assumes p == theParser
+//@   requires pWF(p)
+//@   modifies *
+//@   panics syntaxPanic(v, p)
+//@   ensures pWF(p) && p.Lexer == old(p.Lexer) && p.Lexer.cursor >= old(p.Lexer.cursor)
+
+//@ closure ParseFuncCallExpr$1
+//@   assumes p == theParser
+//@   requires pWF(p)
+//@   modifies *
+//@   panics syntaxPanic(v, p)
+//@   ensures pWF(p) && p.Lexer == old(p.Lexer) && p.Lexer.cursor >= old(p.Lexer.cursor)
+
+//@ closure ParseImportStmt$1
+//@   assumes p == theParser
+//@   requires pWF(p)
+//@   modifies *
+//@   panics syntaxPanic(v, p)
+//@   ensures pWF(p) && p.Lexer == old(p.Lexer) && p.Lexer.cursor >= old(p.Lexer.cursor)
+
+//@ closure ParseMemberExpr$1
+//@   assumes p == theParser
+//@   requires pWF(p) && (rootType == syntax.RootTypeExpr ==> hasRoot && expr != nil && expr.ptr != 0) && (rootType == syntax.RootTypeExpr || rootType == syntax.RootTypeProp)
+//@   ensures [complete] result != nil
+//@   modifies *
+//@   panics syntaxPanic(v, p)
+//@   ensures pWF(p) && p.Lexer == old(p.Lexer) && p.Lexer.cursor >= old(p.Lexer.cursor)
+
+//@ closure ParseMemberExpr$2
+//@   assumes p == theParser
+//@   requires pWF(p) && expr != nil && expr.ptr != 0
+//@   ensures [complete] result != nil && result.ptr != 0
+//@   modifies *
+//@   panics syntaxPanic(v, p)
+//@   ensures pWF(p) && p.Lexer == old(p.Lexer) && p.Lexer.cursor >= old(p.Lexer.cursor)
+
+//@ closure ParseObjNewExpr$1
+//@   assumes p == theParser
+//@   requires pWF(p)
+//@   modifies *
+//@   panics syntaxPanic(v, p)
+//@   ensures pWF(p) && p.Lexer == old(p.Lexer) && p.Lexer.cursor >= old(p.Lexer.cursor)
+
+//@ closure ParseProgram$1
+//@   assumes p == theParser
+//@   requires pWF(p)
+//@   modifies *
+//@   panics syntaxPanic(v, p)
+//@   ensures pWF(p) && p.Lexer == old(p.Lexer) && p.Lexer.cursor >= old(p.Lexer.cursor)
+
+//@ closure ParseVarDeclareStmt$1
+//@   assumes p == theParser
+//@   requires pWF(p)
+//@   modifies *
+//@   panics syntaxPanic(v, p)
+//@   ensures pWF(p) && p.Lexer == old(p.Lexer) && p.Lexer.cursor >= old(p.Lexer.cursor)
+
+//@ closure parseArithMulDivExpr$1
+//@   assumes p == theParser
+//@   requires pWF(p) && el != nil && el.ptr != 0
+//@   modifies *
+//@   panics syntaxPanic(v, p)
+//@   ensures pWF(p) && p.Lexer == old(p.Lexer) && p.Lexer.cursor >= old(p.Lexer.cursor)
+//@   ensures [complete] result != nil && result.ptr != 0
+
+//@ closure parseExpressionLv1$1
+//@   assumes p == theParser
+//@   requires pWF(p) && el != nil && el.ptr != 0
+//@   modifies *
+//@   panics syntaxPanic(v, p)
+//@   ensures pWF(p) && p.Lexer == old(p.Lexer) && p.Lexer.cursor >= old(p.Lexer.cursor)
+//@   ensures [complete] result != nil && result.ptr != 0
+
+//@ closure parseExpressionLv2$1
+//@   assumes p == theParser
+//@   requires pWF(p) && el != nil && el.ptr != 0
+//@   modifies *
+//@   panics syntaxPanic(v, p)
+//@   ensures pWF(p) && p.Lexer == old(p.Lexer) && p.Lexer.cursor >= old(p.Lexer.cursor)
+//@   ensures [complete] result != nil && result.ptr != 0
+
+//@ closure parseVDAssignPair$1
+//@   assumes p == theParser
+//@   requires pWF(p)
+//@   modifies *
+//@   panics syntaxPanic(v, p)
+//@   ensures pWF(p) && p.Lexer == old(p.Lexer) && p.Lexer.cursor >= old(p.Lexer.cursor)
+//@ func parseExpressionLv1
+//@   requires pWF(p) && p == theParser
+//@   modifies *
+//@   panics syntaxPanic(v, p)
+//@   ensures pWF(p) && p.Lexer == old(p.Lexer) && p.Lexer.cursor >= old(p.Lexer.cursor)
+//@   ensures [complete] result != nil && result.ptr != 0
+//@ func parseExpressionLv2
+//@   requires pWF(p) && p == theParser
+//@   modifies *
+//@   panics syntaxPanic(v, p)
+//@   ensures pWF(p) && p.Lexer == old(p.Lexer) && p.Lexer.cursor >= old(p.Lexer.cursor)
+//@   ensures [complete] result != nil && result.ptr != 0
+//@ func parseExpressionLv3
+//@   requires pWF(p) && p == theParser
+//@   modifies *
+//@   panics syntaxPanic(v, p)
+//@   ensures pWF(p) && p.Lexer == old(p.Lexer) && p.Lexer.cursor >= old(p.Lexer.cursor)
+//@   ensures [complete] result != nil && result.ptr != 0
+//@ func parseExpressionLv4
+//@   requires pWF(p) && p == theParser
+//@   modifies *
+//@   panics syntaxPanic(v, p)
+//@   ensures pWF(p) && p.Lexer == old(p.Lexer) && p.Lexer.cursor >= old(p.Lexer.cursor)
+//@   ensures [complete] result != nil && result.ptr != 0
+
+//@ method (*ParserZH).setStmtCurrentLine
+//@   requires pWF(p) && s != nil && s.ptr != 0
+//@   modifies key:F$syntax.StmtBase$currentLine, key:F$syntax.ExprBase$currentLine
+
+// entry point of the front end: a fresh lexer is attached, the first token is read, the program is parsed; trailing
+// input that is not part of the program is a syntax error. Errors of productions arrive as panics (caught by Parser.Parse).
+//@ method (*ParserZH).ParseAST
+//@   assumes p == theParser
+//@   assumes p.TokenP1 == nil && p.TokenP2 == nil && p.StartLineIdxP2 == 0 && p.EndLineIdxP2 == 0
+//@   requires p != nil && lexerFresh(l)
+//@   modifies *
+//@   panics syntaxPanic(v, p)
+//@   ensures [tree-or-error] pg != nil
+//@   ensures [trailing-input-is-an-error] err == nil ==> p.TokenP2 != nil && p.TokenP2.Type == TypeEOF
+//@   ensures [error-has-position] err != nil ==> syntaxPanic(err, p)
